@@ -536,3 +536,33 @@ Definition hstep (t : ty) (st : value * value) (h : hop) : (value * value) * are
       | _ => (st, AStuck)
       end
   end.
+
+(* an item of a history: one operation, or arr.add(name=value, ...) — a fresh default element is appended and its
+   attributes are assigned one by one (path ++ [SElem i (-1)] addresses the new element); as ONE API operation it
+   is all-or-nothing: a rejected attribute leaves both messages as they were *)
+Inductive hitem :=
+| HI (h : hop)
+| HAddWith (on_b : bool) (path : list sel) (i : nat) (attrs : list aop).
+
+Fixpoint add_attrs (t : ty) (b : bool) (path : list sel) (st0 : value * value) (s : value * value) (r : ares)
+         (ks : list aop) : (value * value) * ares :=
+  match ks with
+  | [] => (s, r)
+  | k :: kr =>
+      let '(s2, r2) := hstep t s (HOp b path k) in
+      match r2 with ADone _ => add_attrs t b path st0 s2 r2 kr | _ => (st0, r2) end
+  end.
+
+Definition hitem_step (t : ty) (st : value * value) (it : hitem) : (value * value) * ares :=
+  match it with
+  | HI h => hstep t st h
+  | HAddWith b path i attrs =>
+      let '(st1, r1) := hstep t st (HOp b path (AAdd i)) in
+      match r1 with
+      | ADone _ => add_attrs t b (path ++ [SElem i (-1)]) st st1 r1 attrs
+      | _ => (st, r1)
+      end
+  end.
+
+Definition run_items (t : ty) (hs : list hitem) (st : value * value) : value * value :=
+  fold_left (fun s h => fst (hitem_step t s h)) hs st.
